@@ -158,9 +158,32 @@ def observe(case):
     if "toks" in want:
         res["toks_src"] = tokens_digest(case["src"])
     classes = set()
+    tmpd = None
+    if case.get("via") in ("file", "include"):
+        # the program read through FortranFileReader, or with its first simple statements moved into a file that is INCLUDEd twice
+        import tempfile
+        os.makedirs(os.path.join(common.WORK, "tmp"), exist_ok=True)
+        tmpd = tempfile.mkdtemp(prefix="via", dir=os.path.join(common.WORK, "tmp"))
+        for fn, txt in case.get("files", {}).items():
+            with open(os.path.join(tmpd, fn), "w") as f:
+                f.write(txt)
     for (std, ic, pd) in case["cfgs"]:
         P = fp.create(std)
-        o, t = fp.parse(P, case["src"], ignore_comments=ic, process_directives=pd, **case.get("rkw", {}))
+        if tmpd is not None:
+            try:
+                if case["via"] == "file":
+                    with open(os.path.join(tmpd, "main.f90"), "w") as f:
+                        f.write(case["src"])
+                    rd = fp.FortranFileReader(os.path.join(tmpd, "main.f90"), ignore_comments=ic, process_directives=pd, include_dirs=[tmpd])
+                else:
+                    rd = fp.FortranStringReader(case["src"], ignore_comments=ic, process_directives=pd, include_dirs=[tmpd])
+                o, t = fp.parse(P, rd)
+            except BaseException as e:  # noqa: BLE001
+                if isinstance(e, KeyboardInterrupt):
+                    raise
+                o, t = fp.outcome_of_exception(e), None
+        else:
+            o, t = fp.parse(P, case["src"], ignore_comments=ic, process_directives=pd, **case.get("rkw", {}))
         run = {"cfg": (std, ic, pd), "o": o}
         if o["res"] == "ok":
             s1 = fp.text(t)
@@ -193,6 +216,9 @@ def observe(case):
         res["runs"].append(run)
     if "classes" in want:
         res["classes"] = sorted(classes)
+    if tmpd is not None:
+        import shutil
+        shutil.rmtree(tmpd, ignore_errors=True)
     return res
 
 
